@@ -989,11 +989,6 @@ func (c *ctx) ix(off, k *T) *T {
 	if c.bv {
 		return app("bvadd", c.intSort(), off, k)
 	}
-	if a, ok := numeralValue(off); ok {
-		if b, ok2 := numeralValue(k); ok2 && off.sort == "Int" && k.sort == "Int" {
-			return c.intConstBig(new(big.Int).Add(a, b), 64)
-		}
-	}
 	c.usesIx = true
 	// a view s[c:...] indexes from (+ off(s) c): for ground accesses also put the twin term ix(off(s), c+k)
 	// into the query (equal by the ix axiom), so that facts stated over either view can be triggered
